@@ -182,11 +182,15 @@ pub fn cmd_foot(_r: &mut Runner, _t: &[&str]) -> String {
     "nohook".into()
 }
 
-struct Discard(u64);
+struct Discard {
+    n: u64,
+    cap: usize, // 0 = accept everything; otherwise at most `cap` bytes per call
+}
 impl io::Write for Discard {
     fn write(&mut self, b: &[u8]) -> io::Result<usize> {
-        self.0 += b.len() as u64;
-        Ok(b.len())
+        let k = if self.cap == 0 { b.len() } else { b.len().min(self.cap) };
+        self.n += k as u64;
+        Ok(k)
     }
     fn flush(&mut self) -> io::Result<()> {
         Ok(())
@@ -199,13 +203,23 @@ fn mem_key(i: u64) -> Vec<u8> {
     format!("{:010x}{:06x}", i, z & 0xffffff).into_bytes()
 }
 
+/// key `i` of a sequence in which every second key extends its predecessor
+/// (k, k+"a", k', k'+"a", ...): proper-prefix pairs
+fn mem_key_prefix(i: u64) -> Vec<u8> {
+    let mut k = mem_key(i / 2);
+    if i % 2 == 1 {
+        k.push(b'a');
+    }
+    k
+}
+
 /// peak heap held while building `n` keys into a discarding sink
-fn build_peak(n: u64, map: bool) -> (usize, usize) {
+fn build_peak(n: u64, map: bool, prefix_pairs: bool, cap: usize) -> (usize, usize) {
     let base = reset_peak();
-    let mut b = raw::Builder::new_type(Discard(0), 0).unwrap();
+    let mut b = raw::Builder::new_type(Discard { n: 0, cap }, 0).unwrap();
     let after_new = live() - base;
     for i in 0..n {
-        let k = mem_key(i);
+        let k = if prefix_pairs { mem_key_prefix(i) } else { mem_key(i) };
         if map {
             b.insert(&k, i * 3 + 1).unwrap();
         } else {
@@ -221,15 +235,17 @@ pub fn bang(r: &mut Runner, line: &str) {
     let t: Vec<&str> = line.split(' ').filter(|x| !x.is_empty()).collect();
     match t[0] {
         "!membuild" => {
-            // !membuild <set|map> <n1> <n2>
+            // !membuild <set|map> <n1> <n2> [fixed|prefix] [cap]
             let map = t[1] == "map";
             let n1: u64 = t[2].parse().unwrap();
             let n2: u64 = t[3].parse().unwrap();
-            let (p1, new1) = build_peak(n1, map);
-            let (p2, _) = build_peak(n2, map);
-            r.notes.push(format!("membuild {} n1={} peak1={} n2={} peak2={} after_new={}", t[1], n1, p1, n2, p2, new1));
+            let prefix = t.get(4).map(|x| *x == "prefix").unwrap_or(false);
+            let cap: usize = t.get(5).map(|x| x.parse().unwrap()).unwrap_or(0);
+            let (p1, new1) = build_peak(n1, map, prefix, cap);
+            let (p2, _) = build_peak(n2, map, prefix, cap);
+            r.notes.push(format!("membuild {} keys={} cap={} n1={} peak1={} n2={} peak2={} after_new={}", t[1], if prefix { "prefix-pairs" } else { "fixed" }, cap, n1, p1, n2, p2, new1));
             r.check(p2 as f64 <= 1.25 * p1 as f64 + 65536.0, || {
-                format!("C13 builder heap grows with the number of keys: peak({})={} peak({})={}", n1, p1, n2, p2)
+                format!("C13 builder heap grows with the number of keys ({} keys, sink cap {}): peak({})={} peak({})={}", if prefix { "prefix-pair" } else { "fixed-length" }, cap, n1, p1, n2, p2)
             });
         }
         "!memstream" => {
@@ -264,7 +280,13 @@ pub fn bang(r: &mut Runner, line: &str) {
             }
             let exe = std::env::current_exe().unwrap();
             for _ in 0..2 {
-                let out = std::process::Command::new(&exe).arg("digest").arg(ty.to_string()).arg(&ops).output().unwrap();
+                // the call sequence goes through a file: it can exceed the argv limit
+                let dir = std::env::var("FST_TMP").unwrap_or_else(|_| "/verif/target/tmp".into());
+                std::fs::create_dir_all(&dir).unwrap();
+                let path = format!("{}/par-{}-{}.ops", dir, std::process::id(), r.line_no);
+                std::fs::write(&path, &ops).unwrap();
+                let out = std::process::Command::new(&exe).arg("digest").arg(ty.to_string()).arg(format!("@{}", path)).output().unwrap();
+                let _ = std::fs::remove_file(&path);
                 let s = String::from_utf8_lossy(&out.stdout).trim().to_string();
                 let want = format!("{:?}", base);
                 r.check(s == want, || format!("C15 process build digest {} != {}", s, want));
@@ -521,6 +543,26 @@ fn stream_peaks(n: u64, k: usize) -> [usize; 8] {
         }
         if g.contains_key(kk) {
             c += 1;
+        }
+        out[7] += allocs() - a1;
+    }
+    std::hint::black_box(c);
+    // lookups through nodes with more than 32 / exactly 256 transitions (index path)
+    for &fan in &[40usize, 256] {
+        let wide: Vec<Vec<u8>> = {
+            let mut v: Vec<Vec<u8>> = (0..fan).map(|b| vec![b'w', b as u8, b'z']).collect();
+            v.sort();
+            v
+        };
+        let wf = raw::Fst::from_iter_set(wide.iter()).unwrap();
+        let wb = wf.as_bytes();
+        let wg = raw::Fst::new(wb).unwrap();
+        let a1 = allocs();
+        for k in &wide {
+            let kk: &[u8] = k;
+            if wg.get(kk).is_some() && wg.contains_key(kk) {
+                c += 1;
+            }
         }
         out[7] += allocs() - a1;
     }
